@@ -1,8 +1,9 @@
 """C01 -- replicated execution is deterministic (PARTIAL: proof over a model + site table; the Go
 runtime / IAVL / baseapp are observed through replicas).
 
-1. translator gen_nondet: every nondeterminism source in non-test, non-client code of x/ and app/
-   (go/types) -> Gen/NondetSites.v; theorem C01_sites_covered pins the audited table;
+1. translator gen_nondet: every nondeterminism source in non-test, non-client code of x/, app/, types/
+   (go/types) + a fingerprint of every function owning one -> Gen/NondetSites.v; theorem
+   C01_sites_covered pins the audited table (exact both ways, verdicts pinned to the code);
 2. Coq model with an explicit environment (wall clock, map order): noninterference theorems,
    characterisation, refutations for the code as it is;
 3. replica harness at ABCI level (k=3 independently built applications, same block history,
@@ -42,10 +43,37 @@ def report(R, cases, viol):
             R.violation(s, "replicas of the real application disagree (%s) on %s" % (s, json.dumps(brief)), c)
 
 
+def parse_sites(coqdir):
+    """sites and fingerprints of the generated table (diagnostics / recipe cross-check only; the
+    verdict is the Coq theorem C01_sites_covered)"""
+    try:
+        gen = open(os.path.join(coqdir, "Gen", "NondetSites.v")).read()
+        prop = open(os.path.join(coqdir, "Properties", "C01.v")).read()
+    except OSError:
+        return None
+    sites = re.findall(r'mkSite "([^"]*)" "([^"]*)" (\w+) "([^"]*)" (\d+)', gen)
+    fps = {(a, b): c for a, b, c in re.findall(r'\("([^"]*)", "([^"]*)", "([0-9a-f]{16})"\)', gen)}
+    table = prop[prop.index("Definition audited_sites"):prop.index("Theorem C01_sites_covered")]
+    aud = re.findall(r'mkAudit "([^"]*)" "([^"]*)" (\w+) "([^"]*)" (\d+) "([0-9a-f]*)"', table)
+    return sites, fps, aud
+
+
+def audit_diagnostics(coqdir):
+    p = parse_sites(coqdir)
+    if not p:
+        return None
+    sites, fps, aud = p
+    akeys = {(f, fn, k, e): int(n) for f, fn, k, e, n, _ in aud}
+    new = [s for s in sites if int(s[4]) >= akeys.get(s[:4], 0)]
+    stale = [a[:5] for a in aud if sum(1 for s in sites if s[:4] == a[:4]) != int(a[4])]
+    changed = sorted({(a[0], a[1]) for a in aud if fps.get((a[0], a[1])) != a[5]})
+    return {"unaudited_sites": new, "stale_audit_entries": stale, "functions_changed_since_audit": changed}
+
+
 def run(R):
     R.trusted += ["translator harness/cmd/gen_nondet (go/types over x/ and app/, export data of dependencies from `go list -export`); "
                   "excluded as never executed in a block: client/ cli/ simulation/ legacy/ testutil/ teststaking/, *_test.go, *.pb.gw.go",
-                  "audit verdicts (Harmless <reason>) of Properties/C01.v are human judgements, pinned per file+function+kind+expression",
+                  "audit verdicts (Harmless <reason>) of Properties/C01.v are human judgements, pinned per file+function+kind+expression+count and to the fingerprint of the owning function plus its same-package callees (cross-package callees are not fingerprinted)",
                   "replica harness harness/cmd/c01 + shared ABCI driver harness/abci (store digests, canonical tx results)",
                   "no axioms: every theorem of Properties/C01.v is closed under the global context"]
     R.assume += ["PARTIAL: scheduling/host independence of the Go runtime, IAVL, baseapp and CometBFT is observed on k=3 replicas "
@@ -58,6 +86,11 @@ def run(R):
     R.coq_files(FILES)
     R.coq_property()
     R.audit()
+    import vlib
+    diag = audit_diagnostics(vlib.COQ)
+    if diag and any(diag.values()):
+        R.note("audit table diagnostics:", json.dumps(diag))
+        R.coverage["audit_table_diagnostics"] = diag
     n = 20 if R.tier == "quick" else 400
     obs = observe(R, n)
     total = 0
@@ -70,12 +103,24 @@ def run(R):
         # cases that are both a mismatch and unexplained by a clause (cannot happen by construction) stay a broken obligation
         R.samples = [{k: cases[i][k] for k in ("kind", "name", "class", "kinds", "diverges") if k in cases[i]} for i in (0, len(cases) // 2, len(cases) - 1)]
         dist = json.load(open(os.path.join(out, "dist.json")))
+        # every map-iteration site of hand-written code has a replica recipe (conflicting entries) or a stated reason
+        p = parse_sites(vlib.COQ)
+        if p:
+            recipes = json.load(open(os.path.join(out, "recipes.json")))
+            need = sorted({"%s|%s|%s" % (f, fn, e) for f, fn, k, e, _ in p[0] if k in ("KMapRange", "KMapKeys") and not f.endswith(".pb.go")})
+            missing = [k for k in need if k not in recipes]
+            ran = {c.get("class") for c in cases}
+            notrun = sorted({v for k, v in recipes.items() if k in need and v.startswith("recipe:") and v not in ran})
+            R.oblige("every map-iteration site of hand-written code has a replica recipe with conflicting entries (or a stated reason): %d sites" % len(need),
+                     not missing and not notrun, "sites without recipe: %s; recipes not run: %s" % (missing, notrun))
+            R.coverage["map_site_recipes"] = {k: recipes.get(k) for k in need}
         R.coverage.update({"traces_validated_against_impl": total, "input_distribution": dist,
+                           "message_types_per_module": dist.get("message_types_per_module"),
                            "replicas_per_history": dist.get("replicas")})
     # a broken proof / site table / correspondence: widen the search for a concrete diverging history
     if R.broken and not R.violations:
         for s in range(100, 103):
-            o2 = observe(R, 60 if R.tier == "quick" else 300, seed=R.seed + s)
+            o2 = observe(R, 40 if R.tier == "quick" else 300, seed=R.seed + s, extra=["-recipes", 6])
             if o2:
                 _, _, viol2, t2, cases2 = o2
                 total += t2
